@@ -197,8 +197,14 @@ def _check_main(ctx, rep: Report):
         for node in walk_own(fi.node):
             if isinstance(node, ast.Call) and node.args:
                 f = ast.unparse(node.func)
-                if (f.endswith("__setattr__") or f in ("setattr",)) and any(
-                        isinstance(a, ast.Constant) and a.value == "__spec_class_initializing__" for a in node.args):
+                def _is_flag(a, fi=fi):
+                    if isinstance(a, ast.Constant):
+                        return a.value == "__spec_class_initializing__"
+                    if isinstance(a, ast.Name):
+                        r_ = ctx.p.resolve_global(fi.module, a.id)
+                        return bool(r_) and r_[0] == "assign" and isinstance(r_[1][1], ast.Constant) and r_[1][1].value == "__spec_class_initializing__"
+                    return False
+                if (f.endswith("__setattr__") or f in ("setattr",)) and any(_is_flag(a) for a in node.args):
                     producers.append((short, f"{fi.module.relpath}:{node.lineno}"))
             if isinstance(node, (ast.Assign,)):
                 for t in node.targets:
